@@ -2,6 +2,7 @@ pub mod cairo;
 pub mod choices;
 pub mod corpus;
 pub mod driver;
+pub mod exec;
 pub mod known;
 pub mod panics;
 pub mod shrink;
